@@ -32,6 +32,19 @@ VALID += [
 ]
 
 
+# macros applying themselves: guarded recursions expand completely; unguarded ones (single, double, mutual, through a code block) hit the interpreter's
+# recursion limit ONCE and the assembly ends with that error -- it is not retried level by level
+RECURSIVE = [
+    "*=0x008000\n.macro t(n) {\n.if n {\nt(n - 1)\nt(n - 1)\n}\nnop\n}\nt(3)\n",
+    "*=0x008000\n.macro t(n) {\nt(n - 1)\nnop\n}\nt(3)\n",
+    "*=0x008000\n.macro t(n) {\nt(n - 1)\nt(n - 1)\nnop\n}\nt(3)\n",
+    "*=0x008000\n.macro t(n) {\nt(n - 1)\nt(n - 1)\nt(n - 1)\n}\nt(1)\n",
+    "*=0x008000\n.macro a(n) {\nb(n)\nb(n)\n}\n.macro b(n) {\na(n)\na(n)\n}\na(1)\n",
+    "*=0x008000\n.macro w(code) {\nw({\n{{ code }}\n})\nw({\nnop\n})\n}\nw({\nnop\n})\n",
+    "*=0x008000\n.macro t(n) {\n.for k := 0, 2 {\nt(n)\n}\n}\nt(1)\n",
+]
+
+
 def nested(rng):
     """a program whose expansion-time reads sit `depth` scopes below the definitions (blocks, named scopes, loop iterations, macro applications)"""
     depth = rng.randint(2, 6)
@@ -56,12 +69,17 @@ def run_one(src, limit=4):
     return r["status"]
 
 
+def _limit_memory():
+    import resource
+    resource.setrlimit(resource.RLIMIT_AS, (6 << 30, 6 << 30))  # a runaway expansion must not take the machine down with it
+
+
 def worker(src):
     cwd = os.getcwd()
     try:
         return (src, run_one(src))
     except BaseException as e:  # noqa: BLE001
-        return (src, "exception:" + type(e).__name__)
+        return (src, "TIMEOUT" if type(e).__name__ == "Timeout" else "exception:" + type(e).__name__)
 
 
 def mutations(src, rng, n):
@@ -92,7 +110,7 @@ def gen(tier, rng):
         seqs.append(rng.choice([" ", "\n", ""]).join(rng.choice(ALPHABET) for _ in range(k)))
     for v in VALID:
         seqs += mutations(v, rng, 200 if tier == "thorough" else 60)
-    seqs += VALID
+    seqs += VALID + RECURSIVE
     for _ in range(400 if tier == "thorough" else 80):
         seqs.append(nested(rng))
     for _ in range(300 if tier == "thorough" else 60):
@@ -106,7 +124,7 @@ def run(tier, seed):
     old = os.getcwd()
     os.chdir("/tmp")
     try:
-        with Pool(16) as pool:
+        with Pool(16, initializer=_limit_memory) as pool:
             results = pool.map(worker, seqs, chunksize=50)
     finally:
         os.chdir(old)
@@ -122,7 +140,7 @@ def run(tier, seed):
     return {"evaluations": len(seqs), "distinct_nontrivial": len(set(seqs)),
             "rule": "token-alphabet sequences (78 snippets covering every token kind, unterminated strings/comments, NUL, junk): all sequences of length <= 2 "
                     "(thorough: plus 12% of length 3) with space/newline separators, seeded sequences of 3-12 snippets, every truncation / line deletion / line "
-                    "duplication / single-character corruption of 5 valid programs, programs whose expansion-time symbol reads sit 2-6 scopes below the definitions (or read undefined names from there), byte soup; each under a 4 s watchdog; distinct = distinct sources",
+                    "duplication / single-character corruption of 5 valid programs, guarded and unguarded (single / double / mutual / code-block / loop) self-applying macros, programs whose expansion-time symbol reads sit 2-6 scopes below the definitions (or read undefined names from there), byte soup; each under a 4 s watchdog; distinct = distinct sources",
             "samples": [seqs[5], seqs[len(seqs) // 2][:80]], "failures": failures, "outcomes": {k: sum(1 for _, r in results if r.split(':')[0] == k) for k in ("ok", "error", "exception", "TIMEOUT")}}
 
 
